@@ -341,6 +341,13 @@ pub fn run(e: &'static Engine) {
                 o.label("part:large_periodic");
                 check_pre(c, *pre, fam, o)
             });
+            // large versions with steered word-boundary patterns over many lines inside random filler: accumulated
+            // per-line scoring slips of a few points each can outweigh the usually small gap between the best candidates
+            let strat = (crate::gens::steered_case(27, 40, false), 0u8..5);
+            jc.run_prop(6 << 20, &strat, (total / shards / 12).max(4), |((c, _), pre)| case_json(c, *pre), |((c, fam), pre), o| {
+                o.label("part:steered_large");
+                check_pre(c, *pre, fam, o)
+            });
             // steered matrices: long runs, finder look-alikes and uniform blocks at the symbol edges and next to function patterns
             let strat = (crate::gens::steered_case(1, 12, false), 0u8..5);
             jc.run_prop(3 << 20, &strat, total / shards / 4, |((c, _), pre)| case_json(c, *pre), |((c, fam), pre), o| {
